@@ -33,7 +33,8 @@ EXTENDS Naturals, Sequences, FiniteSets, TLC
 
 CONSTANTS Peers,        \* peer host numbers, a set 1..N
           Locs,         \* locations (a dc/rack pair each)
-          TokVs,        \* token-set variants a host can own (subset of 1..3)
+          TokVs,        \* token-set variants a peer can own (subset of 1..5)
+          LocalTokVs,   \* token-set variants the control node can own (subset of 1..3)
           Shapes,       \* row shapes to enumerate, subset of AllShapes
           LocalLocs,    \* locations the control node can report
           CtlDups,      \* {FALSE} or BOOLEAN
@@ -52,11 +53,19 @@ ASSUME SameAddr \subseteq Peers
 Endpoint(h) == IF h \in SameAddr THEN [addr |-> 0, port |-> h] ELSE [addr |-> h, port |-> 0]
 ASSUME \A g, h \in Hosts : Endpoint(g) = Endpoint(h) => g = h
 
-\* the tokens of variant v on host h (variant 3 = the token moved); variant 0 = nothing known yet
+\* the tokens of variant v on host h; variant 0 = nothing known yet.  Variant 3 = the host's own token moved.
+\* Variants 4 and 5 (peers only) own the PREDECESSOR's primary token 16 * (h - 1): host h replaced host h - 1 and took
+\* over exactly its token (4), or that token moved over to h (5).  With them two snapshots can have the same SET of
+\* tokens and differ only in WHO owns a token.
 Tok(h, v) == CASE v = 1 -> {16 * h}
                [] v = 2 -> {16 * h, 16 * h + 8}
                [] v = 3 -> {16 * h + 8}
+               [] v = 4 /\ h >= 1 -> {16 * (h - 1)}
+               [] v = 5 /\ h >= 1 -> {16 * (h - 1), 16 * h}
                [] OTHER -> {}
+
+\* no token has two owners (a system table never says so)
+Disjoint(k) == \A g, h \in DOMAIN k : g # h => Tok(g, k[g].tok) \cap Tok(h, k[h].tok) = {}
 
 NoInfo   == [loc |-> "none", tok |-> 0]
 Infos    == [loc : Locs, tok : TokVs]
@@ -91,8 +100,9 @@ Rows(snap) == (IF snap.ctlDup THEN <<Row(0, "none", CtlDupInfo(snap.local))>> EL
 
 \* snapshots; the info of a peer without a valid row is irrelevant and fixed
 Canonical(snap) == \A p \in Peers : snap.shape[p] \notin ValidShapes => snap.info[p] = DefInfo
-Snapshots == {s \in [local : [loc : LocalLocs, tok : TokVs], info : [Peers -> Infos],
-                     shape : [Peers -> Shapes], ctlDup : CtlDups] : Canonical(s)}
+Described(snap) == [h \in {0} \cup {p \in Peers : snap.shape[p] \in ValidShapes} |-> IF h = 0 THEN snap.local ELSE snap.info[h]]
+Snapshots == {s \in [local : [loc : LocalLocs, tok : LocalTokVs], info : [Peers -> Infos],
+                     shape : [Peers -> Shapes], ctlDup : CtlDups] : Canonical(s) /\ Disjoint(Described(s))}
 
 RingOf(k) == LET toks == UNION {Tok(h, k[h].tok) : h \in DOMAIN k}
              IN [t \in toks |-> CHOOSE h \in DOMAIN k : t \in Tok(h, k[h].tok)]
@@ -168,8 +178,12 @@ Spec == Init /\ [][Next]_vars
 \* state satisfying it (any set of known hosts containing the control node, any locations and token sets, token map
 \* fresh); with NEXT NextOnce TLC then checks every (state before, snapshot) pair exactly once.  Together with
 \* the run from Init (base case) this covers refresh sequences of every length over the enumerated hosts.
-AllKnown == UNION {{k \in [D -> Infos] : k[0].loc \in LocalLocs} : D \in {X \cup {0} : X \in SUBSET Peers}}
-InitAny == /\ known \in AllKnown
+\* (no zero-arity definition of the set of all such states: TLC would enumerate it at start-up in every configuration)
+KnownOver(D) == {k \in [D -> Infos \cup [loc : LocalLocs, tok : LocalTokVs]] :
+                    /\ k[0].loc \in LocalLocs /\ k[0].tok \in LocalTokVs
+                    /\ \A p \in D \ {0} : k[p] \in Infos
+                    /\ Disjoint(k)}
+InitAny == /\ \E X \in SUBSET Peers : known \in KnownOver(X \cup {0})
            /\ ring = RingOf(known)
            /\ prev = known
            /\ added = Zero /\ removed = Zero /\ moves = {} /\ rebuilt = FALSE
@@ -207,7 +221,9 @@ MembershipOrTokensChanged == \/ DOMAIN known # DOMAIN prev
                              \/ \E h \in DOMAIN known \cap DOMAIN prev : known[h].tok # prev[h].tok
 RebuiltWhenChanged == Refreshed /\ MembershipOrTokensChanged => rebuilt
 
-\* hence the token map always describes the current ring
+TokensDisjoint == Disjoint(known)
+
+\* hence the token map always describes the current ring: the same tokens AND the same owner for each
 RingFresh == Refreshed => ring = RingOf(known)
 
 \* vacuity witnesses (negated reachability; TLC must find them violated)
@@ -220,6 +236,8 @@ Witness_InvalidIgnored  == ~(Refreshed /\ \E p \in Peers : act.snap.shape[p] \in
 Witness_Moved           == ~(Refreshed /\ \E m \in moves : m[1] # 0 /\ m[2] # "none")
 Witness_AddAndRemove    == ~(Refreshed /\ (\E h \in Hosts : added[h] = 1) /\ (\E h \in Hosts : removed[h] = 1))
 Witness_NoRebuild       == ~(Refreshed /\ ~rebuilt /\ prev[0].tok # 0)
+Witness_OwnerOnlyChange == ~(/\ Refreshed /\ prev[0].tok # 0
+                             /\ DOMAIN RingOf(prev) = DOMAIN ring /\ RingOf(prev) # ring)
 Witness_SharedAddressRemoved == ~(Refreshed /\ \E h \in SameAddr : removed[h] = 1)
 
 ASSUME TLCSet(2, {})
@@ -229,6 +247,7 @@ WitnessesHere == (IF ~Witness_TokenOnlyChange THEN {"Witness_TokenOnlyChange"} E
             \cup (IF ~Witness_Moved THEN {"Witness_Moved"} ELSE {})
             \cup (IF ~Witness_AddAndRemove THEN {"Witness_AddAndRemove"} ELSE {})
             \cup (IF ~Witness_NoRebuild THEN {"Witness_NoRebuild"} ELSE {})
+            \cup (IF ~Witness_OwnerOnlyChange THEN {"Witness_OwnerOnlyChange"} ELSE {})
             \cup (IF ~Witness_SharedAddressRemoved THEN {"Witness_SharedAddressRemoved"} ELSE {})
 RecordWitnesses == TLCSet(2, TLCGet(2) \cup WitnessesHere)
 PrintWitnesses == PrintT(<<"WITNESSES", TLCGet(2)>>)
